@@ -79,12 +79,11 @@ def check(q, desc, tcode):
         if not L:
             continue
         m = q.matcher(s)
-        if not m.supports_block_quality():
-            continue
+        sup = m.supports_block_quality()
         engaged = True
         # (1) bounds at every position reached by stepping
         i = 0
-        while m.is_active():
+        while sup and m.is_active():
             sc = m.score()
             try:
                 bq = m.block_quality()
@@ -101,7 +100,7 @@ def check(q, desc, tcode):
         ts = thresholds(L)
         t = ts[tcode % len(ts)]
         # (2) skip_to_quality(t) from every start position
-        for start in range(len(L)):
+        for start in (range(len(L)) if sup else ()):
             m = q.matcher(s)
             for _ in range(start):
                 m.next()
@@ -123,7 +122,9 @@ def check(q, desc, tcode):
             for d, sc in L[start:]:
                 if sc > t + EPS and d not in rest_ids:
                     return "%s on %s: skip_to_quality(%r) from entry %d passed over %r (list %r, left %r)" % (desc, cname, t, start, (d, sc), L, rest_ids), True
-        # (3) replace(t) from every start position keeps every entry scoring more than t
+        # (3) replace(t) from every start position keeps every entry scoring more than t and adds none - asserted whether or not the
+        # matcher claims quality support: the collector calls replace(threshold) on every matcher (FX-C12-3: a negation handed the
+        # threshold to the clause it negates)
         for start in range(len(L)):
             m = q.matcher(s)
             for _ in range(start):
@@ -133,6 +134,10 @@ def check(q, desc, tcode):
                 rest = dict(items(r))
             except Exception as e:  # noqa
                 return "%s on %s: replace(%r) at entry %d raised %s: %s" % (desc, cname, t, start, type(e).__name__, e), True
+            tail_ids = set(d for d, _ in L[start:])
+            for d in rest:
+                if d not in tail_ids:
+                    return "%s on %s: replace(%r) at entry %d yields document %r, which is not in the rest of the list %r" % (desc, cname, t, start, d, L[start:]), True
             for d, sc in L[start:]:
                 if sc > t + EPS:
                     if d not in rest:
@@ -175,11 +180,9 @@ def _mk(op):
     return name, harness
 
 
-# And(a, Not b), Or(Not a, b) and ConstScore(Or) never answer supports_block_quality() on this corpus (measured over all leaf pairs),
-# so the property's antecedent never holds for them; they get no job.
+# And(a, Not b), Or(Not a, b) and ConstScore(Or) never answer supports_block_quality() on this corpus (measured over all leaf pairs): for
+# them only part (3) applies - replace(threshold), which the collector calls on every matcher, keeps what scores more and adds nothing.
 for _op in range(len(C.OPS)):
-    if C.OPS[_op][0] in (u"And(a, Not b)", u"Or(Not a, b)", u"ConstScore(Or)"):
-        continue
     _n, _f = _mk(_op)
     globals()[_n] = _f
 
